@@ -423,7 +423,7 @@ def classify_despawn(prog, body, b, t, n2):
             elif o[0] == "arg":
                 if _release_helper_path(prog) == bd.path and o[1] == 2:
                     c = "payload-entity"
-                elif bd.kind == "closure" and o[1] == 1 and "::once::" in bd.path:
+                elif bd.kind == "closure" and o[1] == 1 and ("::once::" in bd.path or mir.strip_generics(bd.raw.get("root") or "").endswith("ReactCommands::once")):
                     c = "once-reactor-own-id" if once_entity_is_fresh(prog, bd, o) else None
                 elif lib.tail(bd.path, 1) == "syscommand_runner" and o[1] == 2:
                     c = "runner-own-command-component-missing" if on_component_missing_arm(bd, b) else None
@@ -456,7 +456,16 @@ def once_entity_is_fresh(prog, cbody, o):
     for b, i, st in parent.iter_stmts():
         if st["k"] == "assign" and "agg" in st["rv"] and st["rv"]["agg"].get("closure") == cbody.path:
             cap = st["rv"]["agg"]["ops"][int(idx)]
+            oos = set()
             for oo in origins(parent, cap):
+                # the id may be captured as the `SystemCommand(entity)` wrapping it
+                if oo[0] == "agg" and len(oo) == 3:
+                    ag_ = parent.blocks[oo[1]]["stmts"][oo[2]]["rv"]["agg"]
+                    if ag_.get("adt", "").endswith("::SystemCommand") and len(ag_["ops"]) == 1:
+                        oos |= origins(parent, ag_["ops"][0])
+                        continue
+                oos.add(oo)
+            for oo in oos:
                 if oo[0] != "call":
                     return False
                 t = parent.blocks[oo[1]]["term"]
